@@ -124,6 +124,13 @@ class Effects:
 
     def run(self, events):
         m = self.m
+        # loop-carried cursors: (loop id, variable) -> term the cursor starts from
+        self.cursor_init = {}
+        for e in events:
+            pls = e[2] if isinstance(e[2], tuple) else ()
+            for x in subterms(pls):
+                if x[0] == "loopres":
+                    self.cursor_init[(x[1], x[2])] = x[3]
         for g, k, pl, ln, q in events:
             if self.raised:
                 break
@@ -189,7 +196,9 @@ class Effects:
             if t[0] == "loopres":
                 t = t[3]
             elif t[0] == "loopcur":
-                return None if not hasattr(self, "cursor_roots") else self.cursor_roots.get((t[1], t[2]))
+                t = getattr(self, "cursor_init", {}).get((t[1], t[2]))
+                if t is None:
+                    return None
             elif t[0] == "idx":
                 t = t[1]
             elif is_call(t, name=ST + "_nested_dict_get") and t[2]:
@@ -329,6 +338,39 @@ def interpreter_rules(ctx, rule="OWN-namespace-relative-store"):
         ctx.bad("EXH-state-dispatch", "state.State.eval_jaxpr_state", f"handles {sorted(kinds)}", f"interpreter must special-case {sorted(need)}; found {sorted(kinds)}", I.loc)
         return
     ctx.ok("EXH-state-dispatch", "state.State.eval_jaxpr_state", f"handles {sorted(kinds & need)}")
+    # --- the four arms are selected by the primitive alone: an arm that is additionally conditional on the equation's contents sends the
+    #     equations failing that condition to the generic re-bind, where tagged values inside them are never seen
+    from .pjaxr import PRIMS
+    from .c16 import bool_atoms
+    impure = {}
+    for g, k, pl, ln, q in I.s.events:
+        for c, v in g:
+            if not isinstance(c, tuple) or not c or c[0] == "loop":
+                continue
+            ks = {PRIMS[x[1]] for x in subterms(c) if x[0] == "name" and x[1] in PRIMS}
+            if not ks & need:
+                continue
+            atoms = []
+            bool_atoms(c, atoms)
+            primterms = {("attr", I.EQN, "primitive")} | ({("idx", I.UNW, C(0))} if I.UNW is not None else set())
+
+            def pure(a):
+                isname = lambda t: (t[0] == "name" and t[1].split(".")[-1].endswith("_p")) or (t[0] in ("tuple", "list", "set") and all(isname(y) for y in t[1]))
+                if a[0] == "cmp" and a[1] in ("==", "is", "in", "!=", "is not", "not in"):
+                    return (a[2] in primterms and isname(a[3])) or (a[3] in primterms and isname(a[2]))
+                if is_call(a, name=PJ + "PPPrimitive.check") and len(a[2]) == 2:
+                    return a[2][0] in primterms and isname(a[2][1])
+                return False
+            pk = {PRIMS[x[1]] for a in atoms if pure(a) for x in subterms(a) if x[0] == "name" and x[1] in PRIMS} & need
+            for a in atoms:
+                if not pure(a) and pk:
+                    impure.setdefault(tuple(sorted(pk)), (a, ln))
+    if impure:
+        for ks, (a, ln) in sorted(impure.items()):
+            ctx.bad("EXH-state-dispatch", f"state.State.eval_jaxpr_state[{'+'.join(ks)}]", "arm selected by the primitive alone",
+                    f"the {'/'.join(ks)} arm is additionally conditional on {short(a, ev, 120)}: equations of that primitive failing the test are re-bound as they are, "
+                    "so values saved inside them (e.g. in a nested scan body) are silently dropped", f"{I.s.module.path}:{ln}")
+        return
 
     # --- state_p: named / leaf stores relative to the namespace stack; values pass through
     construct = "state.State.eval_jaxpr_state[state_p]"
@@ -550,7 +592,12 @@ def nested_set(ctx, rule="ALG-nested-dict-set"):
             m.bind(("param", "value"), Opq("val"))
             try:
                 E = Effects(m, ev, [D], outer_loops=0)
-                effs = E.run(s.events)
+                try:
+                    effs = E.run(s.events)
+                except Unknown:
+                    if not any(e[0] == "clobber" for e in E.out):
+                        raise
+                    effs = E.out
                 clob = [e for e in effs if e[0] == "clobber"]
                 if clob:
                     bad = f"an existing intermediate dictionary is overwritten while walking the path ({clob[0][1]}): earlier saves under the same namespace are lost"
@@ -859,7 +906,7 @@ def save_and_state(ctx, rule="ROLE-save"):
     s = summarize(ctx, ev, dotted)
     r = s.ret
     it = items(r)
-    good = it is not None and len(it) == 2 and it[1] == CS
+    good = it is not None and len(it) == 2 and it[1] in (CS, ("call", ("name", "builtins.dict"), (CS,), ()), ("call", ("attr", CS, "copy"), (), ()))
     if good:
         res = it[0]
         staged = ("call", ("call", ("name", PJ + "stage"), (("param", "fn"),), ()), (("star", ("param", "args")),), ())
